@@ -445,6 +445,7 @@ func checkC20() *CheckDef {
 					{Name: "h20", Pkg: comparePkg, Params: map[string]int{"ns": 2, "nv": 0}, Budget: 3000000, AllMapOrders: true, RealFmt: true},
 					{Name: "h20", Pkg: comparePkg, Params: map[string]int{"ns": 0, "nv": 2, "parent": 1}, Budget: 3000000, AllMapOrders: true, RealFmt: true},
 					{Name: "h20", Pkg: comparePkg, Params: map[string]int{"ns": 1, "nv": 1}, Budget: 3000000, AllMapOrders: true, RealFmt: true},
+					{Name: "h20k", Pkg: comparePkg, Budget: 3000000, AllMapOrders: true, RealFmt: true},
 					{Name: "h20_witness", Pkg: comparePkg, Params: map[string]int{"ns": 1, "nv": 0}, AllMapOrders: false, RealFmt: true, ExpectViolation: true},
 				}
 			}
@@ -452,6 +453,7 @@ func checkC20() *CheckDef {
 				{Name: "h20", Pkg: comparePkg, Params: map[string]int{"ns": 1, "nv": 0}, Budget: 3000000, AllMapOrders: true, RealFmt: true},
 				{Name: "h20", Pkg: comparePkg, Params: map[string]int{"ns": 0, "nv": 2, "parent": 1}, Budget: 3000000, AllMapOrders: true, RealFmt: true},
 				{Name: "h20", Pkg: comparePkg, Params: map[string]int{"ns": 1, "nv": 1}, Budget: 3000000, AllMapOrders: true, RealFmt: true},
+				{Name: "h20k", Pkg: comparePkg, Budget: 3000000, AllMapOrders: true, RealFmt: true},
 				{Name: "h20_witness", Pkg: comparePkg, Params: map[string]int{"ns": 1, "nv": 0}, AllMapOrders: false, RealFmt: true, ExpectViolation: true},
 			}
 		},
@@ -461,7 +463,8 @@ func checkC20() *CheckDef {
 				"modules":       "<= 2 structs (2 and 1 fields) and <= 2 services (2 and 1 methods) in the old version; every subset of deletions, re-typings (3 types), requiredness flips, one added field per struct, added struct/service/method in the new version",
 				"field_ids":     "symbolic int16, distinct within a struct",
 				"map_iteration": "all orders",
-				"outside":       "git plumbing, CLI exit status, JSON mode, file attribution beyond one file below the git root",
+				"two_files":     "h20k: one Pass over two files in different directories declaring the same names; a definition of each kind (struct, union, exception) with one field; the same edit script (re-typing, requiredness, added field, removed method) applied to the first file and by choice to the second; per-file counts and attribution",
+				"outside":       "git plumbing, CLI exit status, JSON mode",
 			}
 		},
 		Assume: append(append([]string{}, commonAssume...), "fmt.Sprintf formats concrete string/integer arguments for real in this check (engine mini-formatter), so diagnostics can be classified by their text"),
